@@ -18,7 +18,7 @@ from symx.npfacade import patched, std_bindings, NPFacade, _Sub
 PROPERTY = 'C08'
 EXPLANATION = ('elfi.model.extensions.ModelPrior (constructor, pdf, logpdf, rvs, gradient_logpdf), augmenter.add_pdf_nodes and '
                'numgrad run on real ElfiModels whose Prior nodes carry stand-in distributions: density / log-density / support '
-               'membership of parameter k are uninterpreted functions PDF_k, LOGPDF_k, INSUP_k of (x_k, parent values), so the '
+               'membership of parameter k are uninterpreted functions PDF_k, log(PDF_k), INSUP_k of (x_k, parent values), so the '
                'verdict holds for every scipy-like distribution; evaluation points are symbolic.')
 ASSUMPTIONS = [
     'a distribution\'s pdf is > 0 and its logpdf finite exactly on its support, 0 / -inf outside (INSUP_k decides, uninterpreted)',
@@ -40,6 +40,20 @@ SHAPES = {
     'const_arg': [('a', []), ('b', ['#2.5', 'a'])],
     'collider_rev': [('a', []), ('b', []), ('c', ['b', 'a'])],
 }
+
+
+def density(ctx, name, args):
+    """Conditional density of parameter `name` on its support: the uninterpreted PDF_name(x, parents) > 0."""
+    v = ctx.apply_uf('PDF_%s' % name, args)
+    if ctx.symbolic:
+        ctx._fact(v.t > 0)
+        return v
+    return abs(v) if v != 0 else 0.01
+
+
+def log_density(ctx, name, args):
+    """The distribution's logpdf is the logarithm of its own pdf (a scipy-like distribution is consistent)."""
+    return ctx.uf_log(density(ctx, name, args))
 
 
 class Env:
@@ -73,12 +87,7 @@ class Env:
                 out = np.empty(len(x), dtype=object if ctx.symbolic else float)
                 for i in range(len(x)):
                     if D._insup(x[i], prow[i]):
-                        v = ctx.apply_uf('PDF_%s' % name, [x[i]] + prow[i])
-                        if ctx.symbolic:
-                            ctx._fact(v.t > 0)
-                        else:
-                            v = abs(v) + 0.01
-                        out[i] = v
+                        out[i] = density(ctx, name, [x[i]] + prow[i])
                     else:
                         out[i] = 0.0
                 return out
@@ -89,7 +98,7 @@ class Env:
                 out = np.empty(len(x), dtype=object if ctx.symbolic else float)
                 for i in range(len(x)):
                     if D._insup(x[i], prow[i]):
-                        out[i] = ctx.apply_uf('LOGPDF_%s' % name, [x[i]] + prow[i])
+                        out[i] = log_density(ctx, name, [x[i]] + prow[i])
                     else:
                         out[i] = -INF
                 return out
@@ -125,9 +134,7 @@ def ref_terms(ctx, E, names, point, log):
     for nme in names:
         args = [float(p[1:]) if p.startswith('#') else point[p] for p in E.parents_of(nme)]
         insup = ctx.apply_uf('INSUP_%s' % nme, [point[nme]] + args, sort='bool')
-        v = ctx.apply_uf(('LOGPDF_%s' if log else 'PDF_%s') % nme, [point[nme]] + args)
-        if not ctx.symbolic and not log:
-            v = abs(v) + 0.01
+        v = (log_density if log else density)(ctx, nme, [point[nme]] + args)
         out.append((insup, v))
     return out
 
@@ -157,7 +164,7 @@ def check_value(ctx, tag, got, terms, log):
     ctx.claim(tag + '_value', And(all_in, close(got, ref, 1e-7)))
 
 
-def h_pdf(ctx, shape, order_idx, subset, xform):
+def h_pdf(ctx, shape, order_idx, subset, xform, tail=False):
     """order_idx: index of the permutation of the requested names; subset: None or tuple of requested names;
     xform: 'scalar' | '1d' | '2d'."""
     E = Env(ctx, shape)
@@ -191,6 +198,15 @@ def h_pdf(ctx, shape, order_idx, subset, xform):
         ctx.claim('shape_one_per_row', np.shape(p) == (nrows,) and np.shape(lp) == (nrows,))
         pv, lpv = list(p), list(lp)
     for i in range(nrows):
+        if tail:
+            # far tails: every conditional density positive but tiny.  Nothing special over the reals; in doubles this is
+            # where a product of densities underflows, so the models of this region are what the concrete twin runs.
+            terms = ref_terms(ctx, E, names, pts[i], False)
+            ctx.assume(And(*[t[0] for t in terms]))
+            if ctx.symbolic:
+                ctx.assume(And(*[And(t[1] < Fraction(1, 10 ** 200), t[1] > Fraction(1, 10 ** 250)) for t in terms]))
+            check_value(ctx, 'logpdf_row%d' % i, lpv[i], ref_terms(ctx, E, names, pts[i], True), True)
+            continue
         check_value(ctx, 'pdf_row%d' % i, pv[i], ref_terms(ctx, E, names, pts[i], False), False)
         check_value(ctx, 'logpdf_row%d' % i, lpv[i], ref_terms(ctx, E, names, pts[i], True), True)
     if subset is not None:
@@ -287,7 +303,9 @@ def mk_pdf(name, **p):
     tiers = p.pop('tiers', ('quick', 'thorough'))
     finding = p.pop('finding', None)
     return H(name, h_pdf, p, tiers=tiers, finding=finding,
-             bounds='shape=%s order#%d subset=%s x %s' % (p['shape'], p['order_idx'], p['subset'], p['xform']))
+             bounds='shape=%s order#%d subset=%s x %s%s' % (p['shape'], p['order_idx'], p['subset'], p['xform'],
+                                                           '; every conditional density in (1e-250, 1e-200): the region where the '
+                                                           'product underflows in doubles' if p.get('tail') else ''))
 
 
 HARNESSES = [
@@ -305,6 +323,7 @@ HARNESSES = [
     mk_pdf('pdf_chain3_2d_perm4', shape='chain3', order_idx=4, subset=None, xform='2d', tiers=('thorough',)),
     mk_pdf('pdf_fork3_1d_perm3', shape='fork3', order_idx=3, subset=None, xform='1d'),
     mk_pdf('pdf_collider3_2d_perm5', shape='collider3', order_idx=5, subset=None, xform='2d', tiers=('thorough',)),
+    mk_pdf('pdf_chain2_1d_far_tail', shape='chain2', order_idx=0, subset=None, xform='1d', tail=True),
     # requested subsets
     mk_pdf('pdf_subset_indep2_a', shape='indep2', order_idx=0, subset=('a',), xform='scalar'),
     mk_pdf('pdf_subset_indep2_b_1d', shape='indep2', order_idx=0, subset=('b',), xform='1d'),
@@ -327,7 +346,7 @@ HARNESSES = [
 
 MANIFEST = {
     'level_text': 'Bounded symbolic execution of the real ModelPrior on real ElfiModels with uninterpreted conditional densities: '
-                  'for every evaluation point, every support-membership outcome and every distribution (PDF_k/LOGPDF_k/INSUP_k '
+                  'for every evaluation point, every support-membership outcome and every distribution (PDF_k / log PDF_k / INSUP_k '
                   'uninterpreted) the joint density equals the product (log: sum) over exactly the requested parameters with the '
                   'parents\' values taken from the same point, is 0/-inf exactly when a factor is outside its support, has the '
                   'documented output shape; rvs columns follow parameter_names and condition on parents\' draws; the gradient is '
